@@ -238,13 +238,26 @@ def target_kwargs(mode):
     return dict(target_classes=None, all_classes_mode=False, shape_map_raw="\n".join(lines))
 
 
-def run_endpoint(ts, order, mode, cfg, cache, limit=-1, per_query_shuffle=None, timeout=20.0, flip_repeats=False):
+_WARM = False
+
+
+def _warm_up():
+    """rdflib builds its SPARQL grammar on first use (seconds under load): do it outside the timed region"""
+    global _WARM
+    if not _WARM:
+        import rdflib
+        list(rdflib.Graph().query("SELECT ?s WHERE { ?s ?p ?o . FILTER (!isBlank(?s)) } LIMIT 1"))
+        _WARM = True
+
+
+def run_endpoint(ts, order, mode, cfg, cache, limit=-1, per_query_shuffle=None, timeout=60.0, flip_repeats=False):
     """one real extraction against the fake endpoint.
     -> dict(out, log, passes=[[delivered triples]...], collected=[[targets]...], monitor, sel_answers)"""
     import shexer.io.sparql.query as Q
     import shexer.io.graph.yielder.remote.sgraph_from_selectors_triple_yielder as Y
     from shexer.shaper import Shaper
     warnings.filterwarnings("ignore")
+    _warm_up()
     fake = Fake(ts, order, per_query_shuffle, flip_repeats)
     passes, collected = [], []
     cls = Y.SgraphFromSelectorsTripleYielder
@@ -289,7 +302,7 @@ def run_endpoint(ts, order, mode, cfg, cache, limit=-1, per_query_shuffle=None, 
             "monitor": fake.monitor, "sel_answers": fake.sel_answers, "texts": fake.texts}
 
 
-def run_local(ts, mode, cfg, timeout=20.0):
+def run_local(ts, mode, cfg, timeout=60.0):
     extra = target_kwargs(mode)
     c = dict(cfg)
     return pipe.impl_shexc(ts, c, extra_kw=extra, timeout=timeout)
@@ -518,6 +531,36 @@ def compare_evidence(a, b, ties, kls):
     return out
 
 
+def map_instances(ts, mode):
+    """shape-map mode: node -> labels, one per answer row of each item (ShapeMapInstanceTracker)"""
+    inst = collections.OrderedDict()
+    for k, it in enumerate(mode[1]):
+        label = "http://shapes.ex/S%d" % k
+        if it[0] == "node":
+            rows = [it[1]]
+        elif it[0] == "focusS":
+            rows = [s[1] for s, p, o in ts if p == it[1] and (it[2] is None or o[:2] == ("I", it[2]))]
+        else:
+            rows = [o[1] for s, p, o in ts if p == it[2] and (it[1] is None or s == ("I", it[1]))]
+        for n in rows:
+            inst.setdefault(n, []).append(label)
+    return inst
+
+
+def ties_for(ts, mode, cfg):
+    """C09's order-dependence root causes for the local extraction of `ts` in this mode"""
+    if mode[0] != "map":
+        return pipespec.tie_root_causes(ts, dict(cfg, all_classes=(mode[0] == "all"),
+                                                 targets=mode[1] if mode[0] == "classes" else []))
+    inst = map_instances(ts, mode)
+    orig = pipespec.spec_instances
+    pipespec.spec_instances = lambda ts_, cfg_: inst
+    try:
+        return pipespec.tie_root_causes(ts, dict(cfg, all_classes=False, targets=[]))
+    finally:
+        pipespec.spec_instances = orig
+
+
 def evidence(res, tau):
     return pipespec.evidence_of(pipe.canon(res[1]), tau)
 
@@ -526,7 +569,7 @@ def is_fetch(q):
     return q[0] in ("po", "sp", "types")
 
 
-def oracle(case, runs, local, local_T):
+def oracle(case, runs, local, local_T, ts_T=None):
     """-> (failures [(description)], n_checked)"""
     ts, mode, cfg, limit = case["ts"], case["mode"], case["cfg"], case["limit"]
     tau = cfg["tau"]
@@ -544,8 +587,7 @@ def oracle(case, runs, local, local_T):
     twice = [q for q, k in lc.items() if k > 1 and is_fetch(q)]
     if twice:
         fails.append("with the cache a node is fetched twice: %r" % (twice[:2],))
-    ties = pipespec.tie_root_causes(ts, dict(cfg, all_classes=(mode[0] == "all"),
-                                             targets=mode[1] if mode[0] == "classes" else []))
+    ties = ties_for(ts if ts_T is None else ts_T, mode, cfg)
     kls = cfg["keep_less_specific"]
     n += 1
     if (on["out"][0] == "ok") != (off["out"][0] == "ok"):
@@ -621,7 +663,7 @@ def _run_case(case):
         runs[cache] = run_endpoint(ts, order, mode, cfg, cache, limit, flip_repeats=case.get("flip", False))
     T = oracle_targets(ts, mode, cfg, runs[True])
     limited = mode[0] != "map" and (limit >= 0 or cfg["cap"] != -1)
-    local = local_T = None
+    local = local_T = gT = None
     note = None
     if not limited:
         local = run_local(ts, mode, cfg)
@@ -640,7 +682,7 @@ def _run_case(case):
                 local_T = run_local(gT, mode, cfg)
         else:
             local_T = run_local(gT, mode, cfg)
-    fails, nitems = oracle(case, runs, local, local_T)
+    fails, nitems = oracle(case, runs, local, local_T, gT if local_T is not None else None)
     rcs = sorted(root_causes(ts, mode, cfg, limit, T, case.get("flip", False)))
     res = {"fails": fails, "rcs": rcs, "nitems": nitems, "note": note, "corr": [], "unmodelled": 0,
            "monitor": runs[True]["monitor"] + runs[False]["monitor"], "vm": [],
